@@ -175,7 +175,7 @@ def lex(src):
                     elif e == "x":
                         h = src[j + 1:j + 3]
                         try:
-                            if len(h) != 2:
+                            if len(h) != 2 or not all(c_ in "0123456789abcdefABCDEF" for c_ in h):
                                 raise ValueError
                             out.append(chr(int(h, 16)))
                         except ValueError:
@@ -185,6 +185,8 @@ def lex(src):
                         if j + 1 < n and src[j + 1] == "{":
                             k = src.find("}", j)
                             try:
+                                if k < 0 or not src[j + 2:k] or not all(c_ in "0123456789abcdefABCDEF" for c_ in src[j + 2:k]):
+                                    raise ValueError
                                 out.append(chr(int(src[j + 2:k], 16)))
                             except (ValueError, OverflowError):
                                 err("bad \\u{} escape in string literal", j)
@@ -192,7 +194,7 @@ def lex(src):
                         else:
                             h = src[j + 1:j + 5]
                             try:
-                                if len(h) != 4:
+                                if len(h) != 4 or not all(c_ in "0123456789abcdefABCDEF" for c_ in h):     # int() alone would take " 3f" or "0x1f"
                                     raise ValueError
                                 out.append(chr(int(h, 16)))
                             except ValueError:
